@@ -687,6 +687,13 @@ class SupportedLanguages(FnCheck):
             ex.oblige(st, 'never_raises', z3.BoolVal(False), info={'exc': repr(outcome[1])})
             return
         r = ex.concrete_kind(st, outcome[1], ('ref',))
+        ex.oblige(st, 'result_is_a_list_object', z3.BoolVal(r.kind == 'ref'))
+        if r.kind != 'ref':
+            # the result is a value the contract cannot relate to the stored texts (e.g. a cached field)
+            for nm in ('every_listed_language_is_the_language_of_a_stored_text', 'the_language_of_every_stored_text_is_listed',
+                       'no_language_is_listed_twice'):
+                ex.oblige(st, nm, z3.BoolVal(False))
+            return
         R = st.list_seq(r)
         n = z3.Length(self.F)
         i, j, v = z3.Int('i!p'), z3.Int('j!p'), z3.Const('v!p', Val)
